@@ -744,7 +744,7 @@ TIERS = {
     'micro': dict(nrandom=96, nops=200, depth=0, chk=1),         # first 6 scripts of each shard
     'mini': dict(nrandom=320, nops=200, depth=0, chk=1),        # subset of quick (same shards, first 20 scripts each): sensitivity runs
     'quick': dict(nrandom=2000, nops=200, depth=2, chk=1),      # invariants + dump hash after EVERY operation
-    'thorough': dict(nrandom=4000, nops=1000, depth=3, chk=10),
+    'thorough': dict(nrandom=6000, nops=200, depth=3, chk=1),    # every operation compared (see the note in c14.py)
 }
 
 
